@@ -996,6 +996,7 @@ func c09LongKeys(c *Ctx, inst, canary *impl.Instance, st *c09State) (string, str
 				}
 			}
 			p := "/" + impl.EscapePath(st.bucket) + "/" + key
+			putStatus := 0
 			for _, rq := range []impl.Req{
 				{Method: "PUT", Path: p, Body: bytes.NewReader([]byte("long-key")), Header: map[string]string{"X-Amz-Meta-L": fmt.Sprint(l)}},
 				{Method: "GET", Path: p},
@@ -1004,6 +1005,9 @@ func c09LongKeys(c *Ctx, inst, canary *impl.Instance, st *c09State) (string, str
 				{Method: "DELETE", Path: p},
 			} {
 				r := inst.Do(rq)
+				if rq.Method == "PUT" && rq.Body != nil {
+					putStatus = r.Status
+				}
 				c.R.Evaluations++
 				if ok, why := c09Wellformed(c, rq.Method, r); !ok {
 					fp := "c09:malformed-answer:long-key"
@@ -1015,6 +1019,17 @@ func c09LongKeys(c *Ctx, inst, canary *impl.Instance, st *c09State) (string, str
 					return fmt.Sprintf("%s of a %d-byte key (nested=%v) -> %s", rq.Method, l, nested, why), fp
 				}
 				c.hist(fmt.Sprintf("long-key-sweep:%s:status:%d", rq.Method, r.Status))
+				if rq.Method == "PUT" && rq.Header["X-Amz-Copy-Source"] != "" {
+					// whatever the upload was answered: the bucket can still be listed (a refused upload that
+					// left its object file behind without metadata made every listing fail)
+					for _, q := range []string{"", "delimiter=%2F", "list-type=2"} {
+						lr := inst.Do(impl.Req{Method: "GET", Path: "/" + impl.EscapePath(st.bucket), Query: q})
+						c.R.Evaluations++
+						if lr.Status != 200 {
+							return fmt.Sprintf("after PUT/GET/HEAD/copy of a %d-byte key (nested=%v; the PUT was answered %d): GET /%s?%s -> %d %s", l, nested, putStatus, st.bucket, q, lr.Status, lr.ErrCode()), "c09:wedged:long-key-listing"
+						}
+					}
+				}
 			}
 			n++
 			if bad := c09Canary(c, canary, st, n); bad != "" {
